@@ -246,7 +246,7 @@ def check(ctx):
                                   'int(binascii.hexlify(%s), 16) without an emptiness guard: for an empty value hexlify gives b"" and int() raises ValueError '
                                   '(the sibling sites in per/oer Encoder.append_bits and xer.BitString.encode test for it first)' % ast.unparse(x),
                                   stmt='int(hexlify(%s), 16)' % ast.unparse(x))
-    if n2 < 3:
+    if n2 < 1:
         raise AnalysisError('C20.R2 saw only %d hexlify sites on encode paths' % n2)
 
     # ---- R3
